@@ -125,6 +125,8 @@ def cases(tier, seed):
     out = []
     reps = 1 if tier == 'quick' else 3
     for prog in progs.cat():
+        if 'nonunique' in prog.tags:
+            continue
         for rep in range(reps):
             for rec in ('ndarray', 'utpm11', 'utpmDP'):
                 out.append({'kind': 'single', 'seed': case_seed('C05', seed, prog.name, rec, rep), 'params': {'prog': prog.name, 'rec': rec}})
@@ -141,7 +143,7 @@ def cases(tier, seed):
     return out
 
 
-REQUIRED = ['recording-value', 'replay:ndarray', 'replay:utpm', 'trace-spec', 'trace-off', 'second-graph', 'late-independent']
+REQUIRED = ['recording-value', 'replay:ndarray', 'replay:utpm', 'replay:same-object', 'trace-spec', 'trace-off', 'second-graph', 'late-independent']
 
 
 def _same(a, b, tol=TOL):
@@ -195,6 +197,9 @@ def run_case(ctx, case):
         ctx.skip('forward-unsupported:' + label); return
     if isinstance(ydirect, tuple):
         ctx.skip('tuple-output'); return
+    yd_ = ydirect.data if isinstance(ydirect, UTPM) else np.asarray(ydirect, dtype=complex)
+    if not np.all(np.isfinite(yd_)) or (yd_.size and np.max(np.abs(yd_)) > 1e8):
+        ctx.skip('out_of_domain:nonfinite-or-huge-value'); return
     try:
         with Spy() as spy:
             cg, y = progs.record(f, [_copy(v) for v in rec_in])
@@ -209,6 +214,8 @@ def run_case(ctx, case):
     ctx.ok('recording-value', ('recval', label, p['rec']), exact=exact)
     # (c) trace specification
     if not _trace_spec(ctx, label, cg, spy):
+        return
+    if not _same_object_replays(ctx, label, f, cg, ins, rng, progs.by_name(p['prog']).maxD if case['kind'] == 'single' else None):
         return
     # (b) replays of unrelated kinds, in random order
     seq = [REPLAYS[i] for i in rng.choice(len(REPLAYS), size=int(rng.integers(2, 6)), replace=True)]
@@ -236,6 +243,46 @@ def run_case(ctx, case):
         ctx.ok('replay:' + kind, ('replay', label if case['kind'] == 'single' else 'comp', p['rec'], kind, D, P), exact=exact,
                noise=err if isinstance(err, float) else None,
                sample={'program': label, 'recorded_with': p['rec'], 'replayed_with': [kind, D, P], 'bit_exact': exact} if rng.random() < 0.01 else None)
+
+
+def _same_object_replays(ctx, label, f, cg, ins, rng, maxD):
+    """cg.function is called repeatedly with the very same input objects, which the caller updates in place in between,
+    and another replay (other kind) happens in between: every result must follow the current values"""
+    for (kind, D, P) in (('utpm', 2, 2), ('ndarray', 0, 0)):
+        if maxD and D > maxD:
+            continue
+        xs = _mk_replay(rng, ins, kind, D, P)
+        for step in range(3):
+            try:
+                want = f(*[_copy(v) for v in xs])
+            except Exception:
+                ctx.skip('direct-run-unsupported:%s:%s' % (label, kind)); return True
+            wd = want.data if isinstance(want, UTPM) else np.asarray(want, dtype=complex)
+            if not np.all(np.isfinite(wd)):
+                ctx.skip('out_of_domain:nonfinite'); return True
+            try:
+                got = cg.function(xs)[0]
+            except Exception as e:
+                ctx.violation('replay:same-object:%s:raises' % label, {'program': label, 'kind': kind, 'step': step, 'error': str(e)[:200]}); return False
+            ok, exact, err = _same(got, want)
+            if not ok:
+                ctx.violation('replay:same-object:%s:value' % label, {'program': label, 'kind': kind, 'step': step, 'err': err}); return False
+            ctx.ok('replay:same-object', ('sameobj', label, kind, step), exact=exact)
+            # the caller updates its inputs in place (small step that stays inside the domain); sometimes another replay runs in between
+            for v, (shape, dom) in zip(xs, ins):
+                tgt = v.data[0] if isinstance(v, UTPM) else v
+                if getattr(tgt, 'ndim', 0) >= 0 and np.size(tgt):
+                    fresh = gen.series_data(rng, 1, P or 1, shape, dom, 'random', False)[0]
+                    if isinstance(v, UTPM):
+                        v.data[0] = fresh
+                    else:
+                        v[...] = fresh[0]
+            if step == 0:
+                try:
+                    cg.function(_mk_replay(rng, ins, 'utpm', 1, 1))
+                except Exception:
+                    pass
+    return True
 
 
 def _trace_spec(ctx, label, cg, spy):
